@@ -307,7 +307,7 @@ func init() {
 		})
 	}
 	eng.Register(&eng.Check{
-		ID: "C01", Level: "exploration", Pre: WriteCorpusCache, HangBound: 60 * time.Second,
+		ID: "C01", Level: "exploration", Pre: WriteCorpusCache, HangBound: 600 * time.Second,
 		Rule: "every string over the rune alphabet Σ_r (33 lexical-class representatives) up to the phase's length, plus raw-byte/BOM/UTF-16 strings, token strings over Σ_t, nesting-depth family, corpus and its single-token neighbours; each fed to d2parser.Parse (both position modes) and ParseKey/ParseMapKey/ParseValue; non-trivial = the parse produced at least one node or error; all inputs are distinct by construction of the prefix tree",
 		Assumptions: []string{"inputs beyond the stated lengths are covered only through the depth family and corpus", "a worker process death (stack overflow, OOM) is attributed to the input in flight via an mmap'd cursor file"},
 		Oracles: map[string]eng.Oracle{"parse": c01Parse(false), "parse16": c01Parse(true), "entry": c01Entry, "depth": c01Depth},
